@@ -264,6 +264,14 @@ fn run_property(ctx: &Ctx, prop: &str) {
             });
             t.samples.clear();
             merge(&mut s, t);
+            let bs = streams::boundary_streams(&mut Rng::new(seed ^ 0xB05), ctx.thorough());
+            let mut t = run_cases(ctx, bs.len() as u64, |i| {
+                let mut c = streams::c05_bytes(&bs[i as usize].0, &bs[i as usize].1, false);
+                c.tags.push("boundary-stream".into());
+                c
+            });
+            t.samples.truncate(1);
+            merge(&mut s, t);
             let n = ctx.n(2500, 40000);
             merge(&mut s, run_cases(ctx, n, |i| {
                 let c = streams::case(seed ^ 0x05, i, 70000, false);
@@ -282,6 +290,15 @@ fn run_property(ctx: &Ctx, prop: &str) {
                 let c = streams::Case { s: gen::StreamCase { bytes: corpus[i as usize].0.clone(), label: corpus[i as usize].1.clone(), plain: None }, source: streams::Source::Own };
                 streams::c02_case(&c, &mut Rng::new(seed ^ i))
             }));
+            let bs = streams::boundary_streams(&mut Rng::new(seed ^ 0xB02), ctx.thorough());
+            let mut t = run_cases(ctx, bs.len() as u64, |i| {
+                let c = streams::Case { s: gen::StreamCase { bytes: bs[i as usize].0.clone(), label: bs[i as usize].1.clone(), plain: None }, source: streams::Source::Own };
+                let mut o = streams::c02_case(&c, &mut Rng::new(seed ^ i));
+                o.tags.push("boundary-stream".into());
+                o
+            });
+            t.samples.truncate(1);
+            merge(&mut s, t);
             let n = ctx.n(1500, 25000);
             merge(&mut s, run_cases(ctx, n, |i| {
                 let c = streams::case(seed ^ 0x02, i, 70000, false);
@@ -301,6 +318,15 @@ fn run_property(ctx: &Ctx, prop: &str) {
                 let c = streams::Case { s: gen::StreamCase { bytes: corpus[i as usize].0.clone(), label: corpus[i as usize].1.clone(), plain: None }, source: streams::Source::Own };
                 streams::c08_case(&c, &mut Rng::new(seed ^ i), 4, maxlim)
             }));
+            let bs = streams::boundary_streams(&mut Rng::new(seed ^ 0xB08), ctx.thorough());
+            let mut t = run_cases(ctx, bs.len() as u64, |i| {
+                let c = streams::Case { s: gen::StreamCase { bytes: bs[i as usize].0.clone(), label: bs[i as usize].1.clone(), plain: None }, source: streams::Source::Own };
+                let mut o = streams::c08_case(&c, &mut Rng::new(seed ^ i), 3, maxlim);
+                o.tags.push("boundary-stream".into());
+                o
+            });
+            t.samples.truncate(1);
+            merge(&mut s, t);
             let n = ctx.n(700, 10000);
             merge(&mut s, run_cases(ctx, n, |i| {
                 let c = streams::case(seed ^ 0x08, i, 40000, true);
@@ -373,6 +399,7 @@ fn main() {
     }
     match args[1].as_str() {
         "golden-gen" => golden::generate(&rest[0], ctx.seed),
+        "golden-deep" => golden::generate_deep(&rest[0], ctx.seed, rest.get(1).and_then(|x| x.parse().ok()).unwrap_or(40)),
         "golden-check" => {
             let ok = golden::check(&rest[0], &ctx);
             std::process::exit(if ok { 0 } else { 1 });
@@ -382,10 +409,24 @@ fn main() {
             std::process::exit(if ok { 0 } else { 1 });
         }
         "c14-child" => container::c14_child(&ctx),
+        "debug-boundary" => debug_boundary(ctx.seed),
         "versions" => {
             let (a, b) = preflate_rs::verif_hooks::format_versions();
             println!("{a} {b}");
         }
         p => run_property(&ctx, p),
+    }
+}
+
+#[allow(dead_code)]
+pub fn debug_boundary(seed: u64) {
+    let bs = streams::boundary_streams(&mut Rng::new(seed ^ 0xB05), false);
+    for (d, label) in bs.iter() {
+        if !label.contains("pos=6526") && !label.contains("pos=6527") {
+            continue;
+        }
+        let est = preflate_rs::verif_hooks::estimate(d);
+        let o = streams::decompress(d, false);
+        println!("{label}: est={:?} outcome={}", est, match o { streams::Outcome::Ok(_) => "ok".to_string(), streams::Outcome::Err(e) => format!("err {e}"), streams::Outcome::Panic(p) => format!("panic {p}") });
     }
 }
